@@ -165,6 +165,9 @@ type Effects struct {
 	All    bool
 	Keys   map[string]bool // heap key prefixes "type|pathprefix" (prefix match on leaf path)
 	Ghosts map[string]bool
+	// keys that are never affected (frame by encapsulation): exact keys and key prefixes
+	ExceptExact  []string
+	ExceptPrefix []string
 }
 
 func newEffects() *Effects {
@@ -184,6 +187,16 @@ func (e *Effects) add(o *Effects) {
 }
 
 func (e *Effects) matches(key string) bool {
+	for _, k := range e.ExceptExact {
+		if key == k {
+			return false
+		}
+	}
+	for _, p := range e.ExceptPrefix {
+		if strings.HasPrefix(key, p) {
+			return false
+		}
+	}
 	if e.All {
 		return true
 	}
